@@ -19,6 +19,7 @@ type Addr struct {
 	Key  string // state component
 	Ref  string // object reference / base
 	Idx  string // element index (elem)
+	Priv bool   // the cell of a captured variable of the function under verification (never a shared location)
 }
 
 type Closure struct {
@@ -137,6 +138,7 @@ type Engine struct {
 	curProps        []string
 	degraded        []string
 	abstr           map[string]int
+	sharedAddrs     []*Addr         // the locations declared shared (thread-modular mode)
 	loopGhostWriter bool            // the loop being cut contains a call whose contract writes ghost state
 	initialPkgs     map[string]bool // import paths of the packages loaded for verification
 	extPolicy       string          // "" or "preserve-ghosts": how calls leaving the verified code without a contract are treated
@@ -555,6 +557,10 @@ func (x *Engine) initName(key string, gen int) string {
 		if key == "MapLen" {
 			x.decls = append(x.decls, fmt.Sprintf("(assert (= (select %s 0) 0))", n))
 		}
+		if strings.HasPrefix(key, "Lock:") {
+			// a thread never holds a lock a negative number of times
+			x.decls = append(x.decls, fmt.Sprintf("(assert (forall ((r Int)) (! (>= (select %s r) 0) :pattern ((select %s r)))))", n, n))
+		}
 	}
 	return n
 }
@@ -596,6 +602,13 @@ func (x *Engine) havocAll(st *State) {
 	for k, v := range st.h {
 		if strings.HasPrefix(k, "$defer:") || strings.HasPrefix(k, "$rec:") || strings.HasPrefix(k, "$ret:") {
 			keep[k] = v
+		}
+	}
+	// which locks this thread holds is not something other code can change (callees are assumed lock-balanced
+	// unless their contract says otherwise)
+	for _, k := range []string{"Lock:w", "Lock:r"} {
+		if _, ok := x.compSort[k]; ok {
+			keep[k] = x.get(st, k)
 		}
 	}
 	x.n++
